@@ -16,6 +16,13 @@ class InjectedFault(RuntimeError):
     pass
 
 
+class InjectedInterrupt(KeyboardInterrupt):
+    """a failure that is NOT an Exception subclass (Ctrl-C, or a worker being torn down): `except Exception` does not see it"""
+
+
+FAULT_CLASSES = {"error": InjectedFault, "interrupt": InjectedInterrupt}
+
+
 @contextlib.contextmanager
 def write_spy(on_boundary):
     """on_boundary(k, table) is called after the k-th completed write (k = 1, 2, ...)."""
@@ -44,8 +51,8 @@ STAGES = ["geometry", "spot", "spectrum", "taus", "decay", "optical_eas", "optic
 
 
 @contextlib.contextmanager
-def stage_fault(stage):
-    """make the given stage raise InjectedFault when compute() reaches it (None: no fault)."""
+def stage_fault(stage, kind="error"):
+    """make the given stage raise InjectedFault / InjectedInterrupt when compute() reaches it (None: no fault)."""
     import importlib
     import sys
 
@@ -58,8 +65,10 @@ def stage_fault(stage):
         saved[name] = getattr(C, name)
         setattr(C, name, obj)
 
+    Exc = FAULT_CLASSES[kind]
+
     def raising(*a, **k):
-        raise InjectedFault(f"injected failure in stage {stage}")
+        raise Exc(f"injected failure in stage {stage}")
 
     if stage is None:
         yield
@@ -79,7 +88,7 @@ def stage_fault(stage):
                     def mcintegral(self, *a, _base=base, _want=want, **k):
                         # diffuse mcintegral also receives method= through **kwargs
                         if k.get("method") == _want:
-                            raise InjectedFault(f"injected failure in stage {stage}")
+                            raise Exc(f"injected failure in stage {stage}")
                         return _base.mcintegral(self, *a, **k)
 
                     ns["mcintegral"] = mcintegral
